@@ -160,6 +160,7 @@ def main(argv=None):
         try:
             for v in unlisted[:5]:
                 try:
+                    v.setdefault("tier", a.tier)  # replay functions rebuild the tier's spec family
                     r1 = mod.replay(c2, v)
                     r2 = mod.replay(c2, v)
                     v["replay_deterministic"] = (
